@@ -235,6 +235,9 @@ Definition methods_setExecuteConfig : list (string * string) := [].
 Definition may_setExecuteConfig : list string := ["output"; "errorOutput"; "stdin"; "filenameIndex"; "hadFiles"; "noExec"; "noFileWrites"; "noFileReads"; "shellCommand"; "csvOutput"; "noArgVars"; "openFile"; "globals"; "arrays"; "nativeFuncs"; "filename"; "line"; "lineIsTrueStr"; "lineNum"; "fileLineNum"; "fields"; "fieldsIsTrueStr"; "numFields"; "haveFields"; "argc"; "convertFormat"; "outputFormat"; "fieldSep"; "fieldSepRegex"; "recordSep"; "recordSepRegex"; "recordTerminator"; "outputFieldSep"; "outputRecordSep"; "subscriptSep"; "matchLength"; "matchStart"; "inputMode"; "csvInputConfig"; "outputMode"; "csvOutputConfig"; "csvJoinFieldsBuf"; "chars"; "newlineOutputCRLF"].
 Definition may_run : list string := ["scanner"; "scanners"; "filenameIndex"; "hadFiles"; "input"; "inputBuffer"; "inputStreams"; "outputStreams"; "csvOutput"; "splitBuffer"; "globals"; "stack"; "sp"; "frame"; "arrays"; "localArrays"; "callDepth"; "filename"; "line"; "lineIsTrueStr"; "lineNum"; "fileLineNum"; "fields"; "fieldsIsTrueStr"; "numFields"; "haveFields"; "fieldNames"; "fieldIndexes"; "reparseCSV"; "argc"; "convertFormat"; "outputFormat"; "fieldSep"; "fieldSepRegex"; "recordSep"; "recordSepRegex"; "recordTerminator"; "outputFieldSep"; "outputRecordSep"; "subscriptSep"; "matchLength"; "matchStart"; "inputMode"; "csvInputConfig"; "outputMode"; "csvOutputConfig"; "savedFieldSep"; "savedFieldSepRegex"; "savedRecordSep"; "savedInputMode"; "savedCSVInputConfig"; "ctxOps"; "randSeed"; "exitStatus"; "regexCache"; "formatCache"; "csvJoinFieldsBuf"].
 Definition may_setVarByName : list string := ["csvOutput"; "globals"; "filename"; "line"; "lineIsTrueStr"; "lineNum"; "fileLineNum"; "fields"; "fieldsIsTrueStr"; "numFields"; "haveFields"; "argc"; "convertFormat"; "outputFormat"; "fieldSep"; "fieldSepRegex"; "recordSep"; "recordSepRegex"; "recordTerminator"; "outputFieldSep"; "outputRecordSep"; "subscriptSep"; "matchLength"; "matchStart"; "inputMode"; "csvInputConfig"; "outputMode"; "csvOutputConfig"; "csvJoinFieldsBuf"].
+(* fields mentioned (read or written) by the cache fillers and everything they call *)
+Definition refs_parseFmtTypes : list string := ["formatCache"].
+Definition refs_compileRegex : list string := ["regexCache"].
 
 Definition writes_elsewhere : list (string * write) := [
   ("callBuiltin", mkW "inputStreams" Delete "" false);
